@@ -176,7 +176,13 @@ class Setup:
             p.extra_map[b"\xfc\x05verif\x01"] = b"global-unknown"
             p.psbt_ins[0].extra_map[b"\xfc\x05verif\x02"] = b"in-unknown"
             p.psbt_outs[0].extra_map[b"\xfc\x05verif\x03"] = b""
-        if cr.get("both_utxo") and self.kind in ("p2wpkh", "p2sh_p2wpkh", "p2wsh", "p2sh_p2wsh"):
+        if cr.get("nonwitness_only") and self.kind in ("p2wpkh", "p2wsh"):
+            # other creators document native segwit inputs by the full previous transaction only (the library loads that shape)
+            pm = psbtmap.parse(p.serialize())
+            for k, im in enumerate(pm["inputs"]):
+                im[:] = [(b"\x00", tm.ser_tx(self.funding[self.inputs[k]["txid"]]))] + [kv for kv in im if kv[0][:1] not in (b"\x00", b"\x01")]
+            p = PSBT.parse(BytesIO(psbtmap.serialize(pm)), network="mainnet")
+        elif cr.get("both_utxo") and self.kind in ("p2wpkh", "p2sh_p2wpkh", "p2wsh", "p2sh_p2wsh"):
             # as other creators do for segwit v0 inputs (BIP174 allows, and since the 2020 fee attack recommends, both records): every
             # input also carries its full previous transaction; the coordinator loads those bytes with the library
             pm = psbtmap.parse(p.serialize())
@@ -244,7 +250,12 @@ def ref_partial_sigs(pm, setup_like=None):
             try:
                 if spk is not None and len(sig) >= 9:
                     ht = sig[-1]
-                    segwit = bool(wu)
+                    # which algorithm a signature for this input uses follows from the spent script, not from which UTXO record
+                    # documents it (a native segwit input may come with its previous transaction only)
+                    def is_prog(b_):
+                        return b_ is not None and ((len(b_) == 22 and b_[:2] == b"\x00\x14") or (len(b_) == 34 and b_[:2] == b"\x00\x20"))
+
+                    segwit = bool(wu) or is_prog(spk) or is_prog(redeem)
                     if segwit:
                         if ws is not None:
                             sc = ws
@@ -285,6 +296,7 @@ class Node:
         self.signed = False
         self.online = True
         self.tainted = False  # accepted a message that was corrupted / foreign / from a tainted node: its state is garbage-in
+        self.taint_kinds = set()  # why its state is not clean (fault kinds of the unclean messages it accepted)
         self.received = []  # bytes of the untampered messages it accepted (what it could send again by mistake)
         self.inbox = []  # (parsed PSBT object handed to combine(), the bytes it was parsed from, clean?) - the objects are kept and reused
 
@@ -644,6 +656,14 @@ class Ceremony:
         if not clean:
             self.tainted = True
             dst.tainted = True
+            src_node = self.nodes.get(st.get("src"))
+            kinds = set(src_node.taint_kinds) if src_node is not None else set()
+            for key in ("crosstalk", "tamper", "corrupt_sig", "amount_lie", "corrupt"):
+                if st.get(key):
+                    kinds.add(key)
+            if st.get("byz"):
+                kinds.add("byz_" + st["byz"])
+            dst.taint_kinds |= kinds or {"unknown"}
             tr.probe("unclean_message_accepted")
         elif not dst.tainted:
             dst.received.append(raw)
@@ -1220,9 +1240,15 @@ class Ceremony:
         # finalise + extract on a re-parsed copy (the combiner's own object stays usable)
         fin = None
         try:
-            fin = PSBT.parse(BytesIO(before), network="mainnet")
+            # usually on a re-parsed copy (the combiner's own object stays usable); 'in_place' finalises the combiner's own object, which
+            # may hold records that its serialisation does not carry (e.g. a partial signature by a key outside the script)
+            fin = c.psbt if st.get("in_place") else PSBT.parse(BytesIO(before), network="mainnet")
+            if st.get("in_place"):
+                tr.probe("finalize_in_place")
             fin.finalize()
-            if not c.tainted:
+            # a partial signature by a key outside the script is a well-formed record (it verifies under that key) and loads; what the
+            # finaliser then emits must still be a PSBT the library can load, so the codec oracle also applies to nodes tainted only by that
+            if not c.tainted or c.taint_kinds <= {"byz_foreign_key"}:
                 self.check_emitted(fin.serialize(), c.name + "(finalised)")
             ftx = fin.final_tx()
             out = "extracted"
@@ -1407,7 +1433,7 @@ def generate(ch, tier, prop):
     kinds = ["p2pkh", "p2wpkh", "p2sh_p2wpkh", "p2sh", "p2sh", "p2wsh", "p2wsh", "p2sh_p2wsh", "p2sh_p2wsh"]
     plan = gen_spend(ch, tier, kinds, max_n)
     n = len(plan["wallet"]["cosigners"])
-    plan["creator"] = {"segwit_flag": ch.chance(0.3), "xpubs": ch.chance(0.25), "unknown": ch.chance(0.3), "helper": ch.chance(0.2), "both_utxo": ch.chance(0.3)}
+    plan["creator"] = {"segwit_flag": ch.chance(0.3), "xpubs": ch.chance(0.25), "unknown": ch.chance(0.3), "helper": ch.chance(0.2), "both_utxo": ch.chance(0.3), "nonwitness_only": ch.chance(0.15)}
     plan["sign_method"] = "hd" if ch.chance(0.25) else "keys"
     plan["encoding"] = ch.choice(["b64", "b64", "raw"])
     topo = ch.choice(["star", "chain", "gossip"]) if n > 1 else "star"
@@ -1448,7 +1474,7 @@ def generate(ch, tier, prop):
         if "offline" in kinds_f and n > 1:
             out.insert(0, {"op": "offline", "node": f"S{ch.randrange(n)}"})
         steps = out
-    steps.append({"op": "finalize"})
+    steps.append({"op": "finalize", "in_place": True} if ch.chance(0.3) else {"op": "finalize"})
     plan["steps"] = steps
     return plan
 
@@ -1583,6 +1609,28 @@ def enumerate_plans(tier, prop, seed):
             plan["steps"] = [{"op": "send", "src": "C", "dst": "S0"}, {"op": "send", "src": "S0", "dst": "C", "corrupt_sig": {"which": 0, "bit": 0, "in_key": False, "retag": rt}}, {"op": "finalize"}]
             plan["enum"] = "retag-partial-sig"
             yield plan
+    # creators that document native segwit inputs by the previous transaction only: fault-free star ceremony
+    for kind, m, n in (("p2wpkh", 1, 1), ("p2wsh", 2, 3), ("p2wsh", 1, 2)):
+        plan = base(kind, m, n)
+        plan["creator"] = {"segwit_flag": False, "xpubs": False, "unknown": False, "helper": False, "nonwitness_only": True}
+        plan["sign_method"] = "keys"
+        plan["encoding"] = "raw"
+        plan["topology"] = "star"
+        plan["steps"] = [{"op": "send", "src": "C", "dst": f"S{j}"} for j in range(m)] + [{"op": "send", "src": f"S{j}", "dst": "C"} for j in range(m)] + [{"op": "finalize"}]
+        plan["expect_complete"] = True
+        plan["enum"] = "nonwitness-utxo-only"
+        yield plan
+    # a Byzantine signer's foreign-key signature next to too few genuine ones, then finalisation: every multisig kind
+    for kind in ("p2sh", "p2wsh", "p2sh_p2wsh"):
+        for m, n in ((2, 3), (2, 2)):
+            plan = base(kind, m, n)
+            plan["creator"] = {"segwit_flag": False, "xpubs": False, "unknown": False, "helper": False}
+            plan["sign_method"] = "keys"
+            plan["encoding"] = "raw"
+            plan["topology"] = "star"
+            plan["steps"] = [{"op": "send", "src": "C", "dst": "S0"}, {"op": "send", "src": "C", "dst": "S1", "no_sign": True}, {"op": "send", "src": "S0", "dst": "C"}, {"op": "send", "src": "S1", "dst": "C", "byz": "foreign_key"}, {"op": "finalize", "in_place": True}]
+            plan["enum"] = "foreign-key-then-finalize"
+            yield plan
     # creators that attach both UTXO records to segwit inputs: fault-free star ceremony for every segwit wallet kind
     for kind, m, n in (("p2wpkh", 1, 1), ("p2sh_p2wpkh", 1, 1), ("p2wsh", 2, 3), ("p2sh_p2wsh", 2, 2)):
         plan = base(kind, m, n)
@@ -1638,7 +1686,7 @@ def shrink(plan):
                 del p["steps"][i][key]
                 yield p
     cr = plan.get("creator", {})
-    for key in ("segwit_flag", "xpubs", "unknown", "helper", "both_utxo"):
+    for key in ("segwit_flag", "xpubs", "unknown", "helper", "both_utxo", "nonwitness_only"):
         if cr.get(key):
             yield dict(plan, creator=dict(cr, **{key: False}))
     if len(plan["inputs"]) > 1:
